@@ -205,6 +205,16 @@ func (s *CatSc) checkIn(ro runOut, st *core.Stats, add func(clause, key, format 
 				}
 				break
 			}
+			if active != 0 {
+				// a listener is active: this driver refuses a second one; the refused call
+				// must leave the active listener (and its stop function) untouched
+				st.Probe("in:listen-refused-while-listening")
+				if c.err == nil {
+					add("listen-works", "in-second-listener-accepted", "Listen returned nil although listener #%d is still active (the driver's contract refuses a second listener)", active)
+					return
+				}
+				break
+			}
 			if c.err != nil {
 				key := "in-listen-error"
 				if len(listeners) > 1 {
